@@ -4,6 +4,7 @@
    without the insertion algorithm, against the implementation's root hash, bit for bit) and the
    state correspondence; the theorems below cover the parts about publish's control flow. *)
 From Coq Require Import List Bool NArith.
+From Akd Require Import InsertRefine SpecFacts Spec Insert ElemSet NodeLabel Tree.
 From Akd Require Import NodeLabel Hashing Tree Insert Directory DirFacts.
 Import ListNotations.
 Open Scope N_scope.
@@ -25,3 +26,31 @@ Theorem C01_changing_publish : forall cfg ck vrf st upds st' e h,
   exists news, d_states st' = d_states st ++ news.
 Proof. exact publish_changes. Qed.
 Print Assumptions C01_changing_publish.
+
+(* the functional core: after ANY history of batches of distinct 256-bit labels (what derive_all
+   hands to the tree when VRF outputs do not collide), the tree built by the insertion algorithm is
+   canonical, holds exactly the prescribed leaves, and its root hash is the hash of the
+   specification trie (Spec.v, defined without reference to the algorithm) over those leaves -
+   for every hash configuration and every history length *)
+Theorem C01_root_hash_is_spec : forall empty, canonical empty = false -> forall (cfg : config) bs,
+  (forall b, In b bs -> batch_ok b) -> NoDup (map e_label (concat bs)) ->
+  exists t num, run_batches empty azks_new bs = Some (t, N.of_nat (length bs), num) /\
+    root_inv (N.of_nat (length bs)) t /\
+    Permutation.Permutation (leaves t) (hist_leaves 1 bs) /\
+    root_hash cfg true t = spec_root_hash cfg (map sleaf_of (hist_leaves 1 bs)).
+Proof. exact azks_history_is_spec. Qed.
+Print Assumptions C01_root_hash_is_spec.
+
+(* one publish step: the tree stays canonical and gains exactly the batch, stamped with the new epoch *)
+Theorem C01_batch_step : forall empty, canonical empty = false -> forall root latest num elems,
+  root_inv latest root -> batch_ok elems ->
+  (forall x y, In x elems -> In y (leaves root) -> e_label x <> lf_label y) ->
+  exists r num', batch_insert empty (root, latest, num) elems = Some (r, latest + 1, num') /\
+    root_inv (latest + 1) r /\
+    Permutation.Permutation (leaves r) (leaves root ++ map (lf_of (latest + 1)) elems).
+Proof. exact batch_insert_spec. Qed.
+Print Assumptions C01_batch_step.
+
+(* both real configurations' empty labels satisfy the premise *)
+Example C01_empty_labels : canonical empty_label_whatsapp = false /\ canonical empty_label_experimental = false.
+Proof. split; vm_compute; reflexivity. Qed.
